@@ -116,8 +116,8 @@ def parse_value(s):
     return v
 
 
-def parse_dump(path):
-    """TLC `-dump file` output -> list of dict(var -> value)."""
+def parse_dump(path, only=None):
+    """TLC `-dump file` output -> list of dict(var -> value).  `only`: parse just these variables."""
     states = []
     cur = None
     buf = []
@@ -125,7 +125,7 @@ def parse_dump(path):
 
     def flush():
         nonlocal buf, name
-        if name is not None:
+        if name is not None and (only is None or name in only):
             cur[name] = parse_value(" ".join(buf))
         buf, name = [], None
 
